@@ -98,6 +98,10 @@ def oracle(ck, sc, rec, label):
                 ck.fail(f'{mode}/unexpected-success', 'a call that cannot be evaluated (fixed-arity condition, wrong number of coordinates) returned a value', inp)
             continue
         if not o['ok']:
+            if shape == ():
+                ck.fail('solution/raises/0-dim-coordinate', f'{k} with 0-dimensional coordinates raised {o.get("error")}: {o.get("detail", "")[:100]}',
+                        inp, expected='values', actual=o.get('error'))
+                continue
             ck.fail(f'{mode}/raises', f'evaluating the solution raised {o.get("error")}: {o.get("detail", "")[:120]}', inp, expected='values', actual=o.get('error'))
             continue
         if not cols_near(exp, o['values']):
@@ -174,6 +178,14 @@ def main():
         if sc:
             camp.add('replay', sc, coq=False)
         ck.finish()
+    zero_dim = {'cfg': {'cls': 'S1D', 'kappa': [1], 'netof': [0], 'neq': 1, 'idx': [], 'ext': False}, 'w0': [0.5],
+                'conds': [{'kind': 'var', 'tag': 5}], 'ncoords': 1, 'nmetrics': 0, 'lid': 0, 'loss_form': 'none', 'nbt': 1, 'nbv': 1,
+                'opt': {'kind': 'sgd', 'lr': 0.25}, 'train_script': [[[1, 2]]], 'valid_script': [[[2, 2]]],
+                'ops': [{'op': 'fit', 'max_epochs': 1, 'cbs': [[{'when': None, 'act': {'kind': 'record'}}]]},
+                        {'op': 'get_solution', 'copy': False, 'best': False}] +
+                       [{'op': kind, 'sol': 0, 'best': False, 'shape': [], 'coords': [[0.5]], 'as': as_, 'to_numpy': tn, 'no_reshape': False}
+                        for kind in ('eval', 'residuals') for as_ in ('tensor', 'ndarray') for tn in (False, True)]}
+    camp.add('fixed-0dim-coordinate', zero_dim, exact=True)
     r = ck.rng('scenarios')
     n = 1200 if ck.thorough() else 80
     n_eval = 0
